@@ -408,8 +408,31 @@ func marshalStructWithMap[T any](s *T, mapField string) ([]byte, error) {
 // Here jsonNames also returns fields from embedded structs, hence this function
 // handles embedded structs as well.
 func unmarshalStructWithMap[T any](data []byte, v *T, mapField string) error {
-	// Unmarshal into the struct, ignoring unknown fields.
-	if err := json.Unmarshal(data, v); err != nil {
+	names := jsonNames(reflect.TypeFor[T]())
+	// encoding/json matches object keys to struct fields case-insensitively,
+	// but the keys of the struct must match exactly: a key that differs from a
+	// field's name only in case belongs in the map.
+	// So if there are keys that are not exactly field names, hide them from
+	// the struct decoder.
+	structData := data
+	var raw map[string]json.RawMessage
+	if err := json.Unmarshal(data, &raw); err == nil {
+		filtered := false
+		for k := range raw {
+			if !names[k] {
+				delete(raw, k)
+				filtered = true
+			}
+		}
+		if filtered {
+			structData, err = json.Marshal(raw)
+			if err != nil {
+				return err
+			}
+		}
+	}
+	// Unmarshal into the struct. There are no unknown fields left.
+	if err := json.Unmarshal(structData, v); err != nil {
 		return err
 	}
 	// Unmarshal into the map.
@@ -418,7 +441,7 @@ func unmarshalStructWithMap[T any](data []byte, v *T, mapField string) error {
 		return err
 	}
 	// Delete from the map the fields of the struct.
-	for n := range jsonNames(reflect.TypeFor[T]()) {
+	for n := range names {
 		delete(m, n)
 	}
 	if len(m) != 0 {
